@@ -335,7 +335,8 @@ class Remove(ConstantCostEdit):
         super().__init__(
             from_node=to_remove,
             to_node=remove_from,
-            cost=to_remove.total_size + penalty,
+            # removing a node is never free, even if the node has size zero (e.g., null or "") and there is no penalty
+            cost=max(to_remove.total_size + penalty, 1),
         )
 
     def on_diff(self, from_node: EditedTreeNode):
@@ -368,7 +369,8 @@ class Insert(ConstantCostEdit):
         super().__init__(
             from_node=to_insert,
             to_node=insert_into,
-            cost=to_insert.total_size + penalty
+            # inserting a node is never free, even if the node has size zero (e.g., null or "") and there is no penalty
+            cost=max(to_insert.total_size + penalty, 1)
         )
 
     def on_diff(self, from_node: EditedTreeNode):
